@@ -263,6 +263,11 @@ def objective_task(kind, kw):
         rec = Recorder(PROP, task, [ScipyMinimizeAlgorithm.obj_no_jac, _AffineScalings1D.unscaling, _AffineScalings1D.scaling, _AffineScalings1D.from_state, SM._AffineScaling.from_latent_variable])
         st.new_context("R")
         s, ins = populate(m, 1, 2)
+        if kind == "joint":
+            from harness.c10 import put_symbolic_event
+
+            ev = put_symbolic_event(s, 1)
+            T.assume(ev["event_time"].sym[0, 0] - ins["tau"].sym[0, 0] > 0)
         s.auto_fork_type = None
         scal = _AffineScalings1D.from_state(s, var_type=IndividualLatentVariable)
         n = len(scal)
